@@ -78,8 +78,9 @@ def install_v1(case, label='e1'):
     if case.get('evolutions'):
         # several pending evolutions of vapp, each with its own dependencies: [{'label', 'muts', 'after_evolutions', ...}]
         evorig.set_evolutions('vapp', [dict({'label': e['label'], 'mutations': [sigs.real_mutation(m) for m in e['muts']]},
-                                            **{k: e[k] for k in ('after_evolutions', 'before_evolutions',
-                                                                 'after_migrations', 'before_migrations') if e.get(k)})
+                                            **{k: [tuple(x) if isinstance(x, list) else x for x in e[k]]
+                                               for k in ('after_evolutions', 'before_evolutions',
+                                                         'after_migrations', 'before_migrations') if e.get(k)})
                                        for e in case['evolutions']])
     else:
         evorig.set_evolutions('vapp', [{'label': label, 'mutations': [sigs.real_mutation(m) for m in case['muts']]}])
